@@ -564,6 +564,26 @@ func runC20(c *Ctx) *Replay {
 			}
 		}
 	}
+	// part 3d: two readers at once. Reads that FAILED came before (what they leave behind in
+	// shared storage, a pool say, is what this is about); then reader A's value arrives in
+	// two pieces and reader B reads a whole value of its own in between
+	for _, p := range []string{"string", "guid", "bytes", "date", "uint64"} {
+		va, vb := drawPrim(c.R, g, p, true), drawPrim(c.R, g, p, true)
+		w := primWidth(p, va)
+		if w < 2 {
+			continue
+		}
+		sc := Scenario{Kind: "prims", Types: []string{p}, Values: []val.Value{va, vb}, Cut: 1 + c.R.Intn(w-1), Extra: map[string]string{"probe": "overlap"}}
+		viol := execPrimOverlap(c.N, &sc)
+		c.Count("evaluations", 1)
+		c.Count("overlapping_readers", 1)
+		c.State("c20o", p)
+		if viol != nil {
+			if rp := c.shrinkAndReport(&sc, viol); rp != nil {
+				return rp
+			}
+		}
+	}
 	// part 4: hostile length prefixes on the checked string readers (never out of bounds)
 	for _, pfx := range []uint32{uint32(len(sv.B)) + 1, 1 << 16, 1<<31 - 1, 1 << 31, 0xFFFFFFF0, 0xFFFFFFFB, 0xFFFFFFFC, 0xFFFFFFFD, 0xFFFFFFFE, 0xFFFFFFFF} {
 		for _, shared := range []bool{false, true} {
@@ -601,6 +621,90 @@ func runC20(c *Ctx) *Replay {
 	return nil
 }
 
+// execPrimOverlap: failed reads first, then reader A's value in two pieces with reader B
+// reading a complete value while A waits for its second piece.
+func execPrimOverlap(n *Node, sc *Scenario) *Violation {
+	if len(sc.Types) < 1 || len(sc.Values) < 2 {
+		return nil
+	}
+	p := sc.Types[0]
+	ea, eb := primEncode(p, sc.Values[0]), primEncode(p, sc.Values[1])
+	cut := sc.Cut
+	if cut < 1 || cut >= len(ea) {
+		cut = len(ea) / 2
+	}
+	if cut < 1 {
+		return nil
+	}
+	var ga val.Value
+	var bad string
+	cr := safeCall(1<<22, 1<<22, func() {
+		// earlier reads of this process that failed: cut streams, and reads on a reader
+		// that has failed already
+		for _, q := range []string{"string", "guid", p} {
+			full := primEncode(q, drawFixed(q))
+			for _, k := range []int{0, len(full) / 2, len(full) - 1} {
+				if k < 0 || k >= len(full) {
+					continue
+				}
+				er := iohelp.NewErrorReader(struct{ io.Reader }{simnet.NewLink(full[:k], simnet.Schedule{}, nil)})
+				readStream(er, q)
+				readStream(er, q)
+			}
+		}
+		la := simnet.NewLink(ea, simnet.Schedule{Chunks: []int{4, cut}, Repeat: 0}, nil)
+		if p != "string" && p != "bytes" {
+			la = simnet.NewLink(ea, simnet.Schedule{Chunks: []int{cut}}, nil)
+		}
+		era := iohelp.NewErrorReader(struct{ io.Reader }{la})
+		la.Hook = func(call int) {
+			if call < 2 || bad != "" {
+				return
+			}
+			erb := iohelp.NewErrorReader(struct{ io.Reader }{simnet.NewLink(eb, simnet.Schedule{}, nil)})
+			gb := readStream(erb, p)
+			if erb.Err != nil {
+				bad = "reader B: " + erb.Err.Error()
+			} else if d := primDiff(p, sc.Values[1], gb); d != "" {
+				bad = "reader B, which read a whole value while reader A was waiting for the rest of its own: " + d
+			}
+		}
+		ga = readStream(era, p)
+		if bad == "" && era.Err != nil {
+			bad = "reader A: " + era.Err.Error()
+		}
+	})
+	if cr.Panicked {
+		class := "panic"
+		if cr.Sentinel != nil {
+			class = cr.Sentinel.Kind
+		}
+		return &Violation{Class: class, Signature: class + "|overlapping-readers|" + p, Detail: cr.PanicText()}
+	}
+	if bad == "" {
+		if d := primDiff(p, sc.Values[0], ga); d != "" {
+			bad = "reader A, whose value arrived in two pieces with another reader's read in between: " + d
+		}
+	}
+	if bad != "" {
+		return &Violation{Class: "stale", Signature: "stale|overlapping-readers|" + p, Detail: clipStr(bad, 300), Facts: map[string]string{"prim": p}}
+	}
+	return nil
+}
+
+// drawFixed is a fixed value of a primitive (for preludes, no randomness).
+func drawFixed(p string) val.Value {
+	switch p {
+	case "string", "bytes":
+		return val.Value{B: []byte("prelude-value-0123456789")}
+	case "guid":
+		return val.Value{B: []byte{1, 2, 3, 4, 5, 6, 7, 8, 9, 10, 11, 12, 13, 14, 15, 16}}
+	case "date":
+		return val.Value{Date: &val.Date{Sec: 1000, Nanos: 100}}
+	}
+	return val.Value{U: 0x0102030405060708}
+}
+
 // execPrims runs one primitive stream scenario (and, for the probe form, the string
 // bounds probe).
 func execPrims(n *Node, sc *Scenario) *Violation {
@@ -623,6 +727,9 @@ func execPrims(n *Node, sc *Scenario) *Violation {
 	}
 	if sc.Extra["probe"] == "shortview" {
 		return execShortView(n, sc)
+	}
+	if sc.Extra["probe"] == "overlap" {
+		return execPrimOverlap(n, sc)
 	}
 	if sc.Extra["probe"] == "hostileprefix" {
 		full := primEncode("string", sc.Values[0])
